@@ -73,6 +73,42 @@ def decOutcome (r : GoDec.R (List (Str × Val))) : Lean.Json :=
       | .unsupported w => ("unsupported", w)
     Lean.Json.mkObj [("err", Lean.Json.mkObj [("class", Lean.Json.str cls), ("key", Lean.Json.str (String.ofList key))])]
 
+/-- insert a binding into a key-sorted association list (byte order of the keys). -/
+def insertSorted (p : Str × Sebuf.Json) : List (Str × Sebuf.Json) → List (Str × Sebuf.Json)
+  | [] => [p]
+  | q :: t => if GoDec.strLt p.1 q.1 then p :: q :: t else q :: insertSorted p t
+
+/-- the document as the harness writes it for the real decoder: `encoding/json` marshals a map with
+its keys SORTED, so the first member a decoder trips over is the first in key order at every level
+(the model decoder must read the same document, not the declaration-ordered one). -/
+partial def sortKeys : Sebuf.Json → Sebuf.Json
+  | .obj kvs => .obj ((kvs.map fun p => (p.1, sortKeys p.2)).foldr insertSorted [])
+  | .arr l => .arr (l.map sortKeys)
+  | x => x
+
+/-- every member key plain protojson would call unknown, at any depth of the document (the decoder
+stops at the FIRST one in document order; which one that is depends on the member order of nested
+objects, so the harness accepts any of them as "the" unknown field). -/
+partial def deepUnknown (rq : Request) (m : Message) (j : Sebuf.Json) : List Str :=
+  match j with
+  | .obj kvs =>
+    let here := (kvs.filter fun p => !(m.fields.any fun f => f.json == p.1 || f.name == p.1)).map (·.1)
+    let below := m.fields.flatMap fun f =>
+      if f.kind == .message then
+        match rq.findMessage f.typeName with
+        | none => []
+        | some c =>
+          let vs : List Sebuf.Json := match (Json.oget f.json kvs).orElse (fun _ => Json.oget f.name kvs) with
+            | none => []
+            | some v => (match f.card, v with
+                | .repeated, .arr l => l
+                | .map, .obj es => es.map (·.2)
+                | _, x => [x])
+          vs.flatMap (deepUnknown rq c)
+      else []
+    here ++ below
+  | _ => []
+
 def opSpecEnc (j : Lean.Json) : Lean.Json :=
   let rq := requestOf (j.getObjValD "rq")
   let ty := getStr j "type"
@@ -95,7 +131,8 @@ def opSpecEnc (j : Lean.Json) : Lean.Json :=
         ("custom", Lean.Json.bool (WireEnc.hasCustomMarshal rq m)),
         ("encode_fails", Lean.Json.bool impl.isNone),
         ("impl_rt", match impl with | some i => decOutcome (GoDec.serverDec rq fuel m i) | none => Lean.Json.null),
-        ("impl_dec_spec", decOutcome (GoDec.serverDec rq fuel m spec))]
+        ("impl_dec_spec", decOutcome (GoDec.serverDec rq fuel m (sortKeys spec))),
+        ("spec_unknown_keys", Lean.Json.arr ((deepUnknown rq m spec).map jstr).toArray)]
     | _ => Lean.Json.mkObj [("driver_err", Lean.Json.str "value is not a message")]
 
 /-- which codec `marshalResponse` picks for a request Content-Type (regenerated switch table of the
